@@ -363,7 +363,36 @@ def _sqlite(tree):
   new = ast.unparse(T.find_def(cls, 'new'))
   if 'parse_examples: Callable[[bytes], client_datasets.Examples]=decompress_and_deserialize' not in new:
     _unsupported('SQLiteFederatedData.new: default parser is not decompress_and_deserialize')
-  return ('(* row = (client_id, zlib(msgpack_serialize(examples)), num_examples(examples)); rows are inserted in\n'
+  # schema: CREATE TABLE column order, the tuple handed to INSERT ... VALUES (?, ?, ?), the columns of each SELECT
+  import re
+  COL = {'client_id': 'ColId', 'data': 'ColData', 'num_examples': 'ColCount'}
+  init = T.find_def(tree, 'SQLiteFederatedDataBuilder.__init__')
+  create = [n.value for n in ast.walk(init) if isinstance(n, ast.Constant) and isinstance(n.value, str) and 'CREATE TABLE' in n.value]
+  if len(create) != 1:
+    _unsupported('SQLiteFederatedDataBuilder.__init__: expected one CREATE TABLE statement')
+  m = re.search(r'CREATE TABLE federated_data \((.*)\)', create[0], re.S)
+  cols = [c.split()[0] for c in m.group(1).split(',')] if m else []
+  if sorted(cols) != sorted(COL) or 'client_id BLOB NOT NULL PRIMARY KEY' not in create[0]:
+    _unsupported('SQLiteFederatedDataBuilder.__init__: table columns changed')
+  ret = [x for x in _body(pp) if isinstance(x, ast.Return)][0].value
+  tup = [D(e) for e in ret.elts]
+  if sorted(tup) != sorted(COL):
+    _unsupported('prepare_parameters: returned tuple is not a permutation of (client_id, data, num_examples)')
+  sel = {}
+  for meth in ('client_ids', 'client_sizes', '_read_clients'):
+    src = ast.unparse(T.find_def(cls, meth))
+    mm = re.search(r'SELECT (.*?) FROM federated_data', src)
+    sel[meth] = [c.strip() for c in mm.group(1).split(',')]
+    if any(c not in COL for c in sel[meth]):
+      _unsupported(f'SQLiteFederatedData.{meth}: unknown column selected')
+  lst = lambda names: '[' + '; '.join(COL[n] for n in names) + ']'
+  schema = (f'Definition table_columns : list db_col := {lst(cols)}.\n'
+            f'Definition builder_tuple : list db_col := {lst(tup)}.\n'
+            f'Definition select_ids_cols : list db_col := {lst(sel["client_ids"])}.\n'
+            f'Definition select_sizes_cols : list db_col := {lst(sel["client_sizes"])}.\n'
+            f'Definition select_clients_cols : list db_col := {lst(sel["_read_clients"])}.\n')
+  return (schema +
+          '(* row = (client_id, zlib(msgpack_serialize(examples)), num_examples(examples)); rows are inserted in\n'
           '   iteration order and read back ORDER BY rowid through msgpack_deserialize(zlib.decompress(.)) *)\n'
           'Definition sqlite_row_is_id_blob_count : bool := true.\n'
           'Definition sqlite_reads_in_rowid_order : bool := true.\n'
@@ -383,6 +412,7 @@ MODULES = {
     },
     'Gen_c16_sqlite': {
         'src': 'fedjax/core/sqlite_federated_data.py',
+        'preamble': 'From FV Require Import Common.SerTags.\n',
         'items': [_sqlite],
     },
     'Gen_c16_checkpoint': {
